@@ -119,18 +119,71 @@ func corrReplacer(r *vl.Rng, out *vl.Out, n int) {
 		out.Case(strings.Join(op, " "), first, keys >= 1 && len(ps) >= 1)
 		out.Count(fmt.Sprintf("R:points=%d,patches=%d", min(keys, 4), min(len(ps), 4)))
 		if len(distinct) > 1 {
-			var obs []string
-			for k := range distinct {
-				obs = append(obs, k)
-			}
-			sort.Strings(obs)
-			out.Fail(vl.OracleFail{Key: "nondeterministic:in-process:BuildResponse", What: "FileManager.BuildResponse gives different contents for one Feed history",
-				Input: map[string]interface{}{"content": content, "patches": ps}, Expected: "one content", Observed: obs})
+			content, ps = shrinkR(content, ps)
+			out.Fail(failR(content, ps, observeR(content, ps, 40)))
 		}
 		if c < 2 {
 			out.Sample(map[string]interface{}{"suite": "R", "content": content, "patches": ps})
 		}
 	}
+}
+
+// observeR repeats BuildResponse and returns the distinct results.
+func observeR(content string, ps []patch, n int) []string {
+	seen := map[string]bool{}
+	for k := 0; k < n; k++ {
+		x, _ := buildResponse(content, ps)
+		seen[x] = true
+	}
+	var obs []string
+	for k := range seen {
+		obs = append(obs, k)
+	}
+	sort.Strings(obs)
+	return obs
+}
+
+func failR(content string, ps []patch, obs []string) vl.OracleFail {
+	return vl.OracleFail{Key: "nondeterministic:in-process:BuildResponse",
+		What:  "FileManager.BuildResponse gives different contents for one Feed history (points named inside the insertion-point alphabet)",
+		Input: map[string]interface{}{"content": content, "patches": ps}, Expected: "one content", Observed: obs}
+}
+
+// shrinkR drops patches and cuts the content while BuildResponse still gives >= 2 results in 40 tries.
+func shrinkR(content string, ps []patch) (string, []patch) {
+	bad := func(c string, q []patch) bool { return len(observeR(c, q, 40)) > 1 }
+	for i := 0; i < len(ps); {
+		q := append(append([]patch(nil), ps[:i]...), ps[i+1:]...)
+		if bad(content, q) {
+			ps = q
+		} else {
+			i++
+		}
+	}
+	for step := len(content) / 2; step >= 1; step /= 2 {
+		for at := 0; at+step <= len(content); {
+			c := content[:at] + content[at+step:]
+			if bad(c, ps) {
+				content = c
+			} else {
+				at += step
+			}
+		}
+	}
+	for i := range ps {
+		for step := len(ps[i].Text) / 2; step >= 1; step /= 2 {
+			for at := 0; at+step <= len(ps[i].Text); {
+				q := append([]patch(nil), ps...)
+				q[i].Text = ps[i].Text[:at] + ps[i].Text[at+step:]
+				if bad(content, q) {
+					ps = q
+				} else {
+					at += step
+				}
+			}
+		}
+	}
+	return content, ps
 }
 
 // readMapField parses `0d 00 <fid> 0b 0b <n> (len k len v)*` at b[off:].
